@@ -17,6 +17,7 @@ class BCtx:
         self.path = path
         self.tag = tag
         self.recipes = {}
+        self.eval_expr = None
 
     def sym(self, label, sort):
         return z3.Const(f'{self.tag}{label}', sort)
@@ -155,4 +156,42 @@ def shared(key, inner):
             c.recipes[key] = inner(c, key)
         return c.recipes[key]
     b.recipe = ('shared', key, inner)
+    return b
+
+
+def vec_len(len_expr, kind='real'):
+    """fresh array whose length is the value of a spec expression in the call environment (constructor outputs)"""
+    sort = {'real': R, 'int': I, 'bool': B, 'str': StrS}[kind]
+
+    def b(c, label):
+        from .vals import fresh_fun
+        from .ops import term
+        n = c.eval_expr(len_expr)
+        n = n if isinstance(n, int) else term(n)
+        f = fresh_fun(f'{c.tag}{label}', I, sort)
+        v = Vec(n, lambda i: SV(f(i if not isinstance(i, int) else z3.IntVal(i))), name=label)
+        v._kind = kind
+        return v
+    b.recipe = ('vec_len', len_expr, kind)
+    return b
+
+
+def expr(e):
+    """value of a spec expression in the call environment"""
+    def b(c, label):
+        return c.eval_expr(e)
+    b.recipe = ('expr', e)
+    return b
+
+
+def mat_len(len_expr):
+    def b(c, label):
+        from .vals import fresh_fun, Mat
+        from .ops import term
+        n = c.eval_expr(len_expr)
+        n = n if isinstance(n, int) else term(n)
+        f = fresh_fun(f'{c.tag}{label}', I, I, R)
+        return Mat(n, n, lambda i, j: SV(f(i if not isinstance(i, int) else z3.IntVal(i),
+                                           j if not isinstance(j, int) else z3.IntVal(j))))
+    b.recipe = ('mat_len', len_expr)
     return b
